@@ -94,8 +94,11 @@ def run_driver(corpus_path: str, hashseed: str, rseed: int):
     env["PYTHONHASHSEED"] = hashseed
     env.pop("PYTHONDONTWRITEBYTECODE", None)
     env["PYTHONDONTWRITEBYTECODE"] = "1"
-    r = subprocess.run([sys.executable, os.path.join(VERIF_DIR, "vf", "c20_driver.py"), corpus_path, str(rseed), REPO, VERIF_DIR],
-                       capture_output=True, text=True, env=env, timeout=300)
+    try:
+        r = subprocess.run([sys.executable, os.path.join(VERIF_DIR, "vf", "c20_driver.py"), corpus_path, str(rseed), REPO, VERIF_DIR],
+                           capture_output=True, text=True, env=env, timeout=1800)
+    except subprocess.TimeoutExpired:
+        return {"timeout": True}  # a time budget hit is inconclusive, never a violation
     if r.returncode != 0:
         return {"crash": r.stderr[-600:]}
     return json.loads(r.stdout.strip().splitlines()[-1])
@@ -115,6 +118,9 @@ def check_case(case: dict) -> Outcome:
             results.append(((hs, rs), run_driver(path, hs, rs)))
     finally:
         os.unlink(path)
+    if any("timeout" in r for _, r in results):
+        out.skipped = "driver sub-process exceeded its time budget (inconclusive)"
+        return out
     for env, r in results:
         if "crash" in r:
             out.fail("C20:driver-crashed", f"env {env}: {r['crash']}")
